@@ -201,7 +201,14 @@ def replay(sc, res, harness_basename, timeout=600, release=False):
         shutil.rmtree(tdir, ignore_errors=True)
         return None
     shutil.rmtree(tdir, ignore_errors=True)
-    if re.search(r"test result: FAILED|panicked at", out):
+    locs = re.findall(r"panicked at ([^\n]*)", out)
+    real = [l for l in locs if "concrete_playback" not in l]
+    if locs and not real:
+        # only Kani's own "concrete values left over" panic: values drawn by stubs were not consumed
+        # by the native run -- a stub-level counterexample, not a reproduction
+        res.replayed = None
+        res.log_tail += "\n[playback] only concrete_playback.rs panics (stub-level counterexample)"
+    elif real or re.search(r"test result: FAILED", out):
         res.replayed = True
     elif re.search(r"test result: ok\. 1 passed", out):
         res.replayed = False
